@@ -530,6 +530,12 @@ fn main() {
                         for cb in [full, CubeM::new(x & !v1, !x & !v1), CubeM::new(x & !v1 & !v2, !x & !v1 & !v2), CubeM::new(u32::MAX & !v1, 0), CubeM::new(0, u32::MAX)] {
                             exec(ctx, &ev_cubes("single", 32, &[cb]), &mut rng);
                             exec(ctx, &ev_cubes("pair", 32, &[cb, full]), &mut rng);
+                            // the constants against the widest cubes, both ways round: the empty cube (one
+                            // conflicting variable, many, all of them) and the cube without literals
+                            for k in [CubeM::new(v1, v1), CubeM::new(x | v1, !x | v1), CubeM::new(u32::MAX, u32::MAX), CubeM::new(0, 0)] {
+                                exec(ctx, &ev_cubes("pair", 32, &[k, cb]), &mut rng);
+                                exec(ctx, &ev_cubes("pair", 32, &[cb, k]), &mut rng);
+                            }
                         }
                     }
                     let v = 1u32 << rng.below(32);
